@@ -81,7 +81,9 @@ func c12Dense(cas c12Msg) ([]ref.Hash32, []byte) {
 	return hs, flags
 }
 
-var c12Alpha = [3]ref.Hash32{{0x01}, {0x02, 0x02}, {0x03, 0x03, 0x03}}
+// the first element is the ALL-ZERO hash: the value an implementation is most likely to use as a
+// sentinel ("no hash", "failed subtree"), here a perfectly ordinary hash in every slot
+var c12Alpha = [3]ref.Hash32{{}, {0x02, 0x02}, {0x03, 0x03, 0x03}}
 
 func c12Hash(ch byte, honestN int) ref.Hash32 {
 	if ch >= '0' && ch <= '2' {
